@@ -16,7 +16,8 @@ Main      `quic_one_rtt_connection_exact`
                      CRYPTO frames (see below) around any number of STREAM frames; spin / reserved bits arbitrary;
                      NEW_CONNECTION_ID issuance and switches (`DcidOk`: a packet is never addressed to a CID only its own
                      sender issued; the same bytes chosen by both sides are allowed); the sender padded for the
-                     header-protection sample; datagrams pairwise different in (capture time, direction);
+                     header-protection sample; datagrams pairwise different in (capture time, direction); the key log
+                     handed to each `handle_packet` call arbitrary (`est_keylog_irrelevant`: it is read no more);
             PROVES   no exception; `quicMachine.out false` = exactly one UDP frame per datagram that carried a STREAM frame,
                      in capture order, payload = that datagram's STREAM data concatenated, time = the datagram's, addressed
                      by its direction (`QuicPipeline.addressed`; `C02Pipeline.quic_out_addressed`).
@@ -379,6 +380,19 @@ theorem datagram_step (kl : List Keylog.Key) (L : SealLaws Pc) (sel : SuiteSel) 
 
 end Composed
 
+/-! ### a whole 1-RTT history -/
+
+/-- neither `Est` nor `KeysWf` depends on the key log: after the handshake the session reads it no more -/
+theorem est_keylog_irrelevant (H : Crypto.Prims) (Pc : Cipher.Prims) (kl kl' : List Keylog.Key) (sel : SuiteSel) (v : Version)
+    (k0 : AppKeys) (hpC hpS : Bytes) (chacha : Bool) (s : St Tls) (gc gs lc ls : Nat) (cc sc : List Bytes)
+    (h : Est H Pc kl sel v k0 hpC hpS chacha s gc gs lc ls cc sc) :
+    Est H Pc kl' sel v k0 hpC hpS chacha s gc gs lc ls cc sc :=
+  ⟨⟨⟨h.rel.inv.suite, h.rel.inv.version, h.rel.inv.gens, h.rel.inv.ec, h.rel.inv.es, h.rel.inv.lc, h.rel.inv.ls⟩,
+    h.rel.flag, h.rel.pc, h.rel.ps⟩, h.init, h.hpc, h.hps, h.suite, h.ver, h.cc, h.sc⟩
+
+theorem keysWf_keylog_irrelevant (H : Crypto.Prims) (Pc : Cipher.Prims) (kl kl' : List Keylog.Key) (sel : SuiteSel)
+    (v : Version) (k0 : AppKeys) (h : KeysWf (params H Pc kl) sel v k0) : KeysWf (params H Pc kl') sel v k0 := h
+
 section History
 variable (maskFn : Dissect.MaskFn) (H : Crypto.Prims) (Pc : Cipher.Prims) (info : Nat → Pipeline.Info)
 
@@ -408,36 +422,37 @@ def Send1 (L : SealLaws Pc) (sel : SuiteSel) (v : Version) (k0 : AppKeys) (hpC h
       (if d.x.srv then cc else issue cc (newCids d.x.frames))
       (if d.x.srv then issue sc (newCids d.x.frames) else sc) rest
 
-/-- the main loop hands the datagrams to the session one by one (`handle_packet(packet, dcid, UNKNOWN)`; the routing DCID is
-    the packet's: `Props/C04`) -/
-def feedAll (QM : MainLoop.QuicMachine Keylog.Key QConn Pipeline.OutPkt) (kl : List Keylog.Key) (c : QConn) :
-    List (MainLoop.Pkt × Dg1) → QConn
+/-- the main loop hands the datagrams to the session one by one (`handle_packet(packet, dcid, UNKNOWN)` with the key log as
+    it is at that moment — it may grow through decryption-secrets blocks; the routing DCID is the packet's: `Props/C04`) -/
+def feedAll (QM : MainLoop.QuicMachine Keylog.Key QConn Pipeline.OutPkt) (c : QConn) :
+    List (List Keylog.Key × MainLoop.Pkt × Dg1) → QConn
   | [] => c
-  | (p, d) :: rest => feedAll QM kl (QM.feed c kl p d.x.dcid .unknown) rest
+  | (kl, p, d) :: rest => feedAll QM (QM.feed c kl p d.x.dcid .unknown) rest
 
 theorem feedAll_exact (kl : List Keylog.Key) (L : SealLaws Pc) (sel : SuiteSel) (v : Version) (k0 : AppKeys)
     (hpC hpS : Bytes) (chacha : Bool) (hk : KeysWf (params H Pc kl) sel v k0)
-    (items : List (MainLoop.Pkt × Dg1)) (c : QConn) (gc gs lc ls : Nat) (cc sc : List Bytes)
+    (items : List (List Keylog.Key × MainLoop.Pkt × Dg1)) (c : QConn) (gc gs lc ls : Nat) (cc sc : List Bytes)
     (hr : c.raised = none)
     (hest : Est H Pc kl sel v k0 hpC hpS chacha c.st gc gs lc ls cc sc)
-    (hcar : ∀ x ∈ items, Carries info c (wireOf H Pc L sel v k0) x.1 x.2)
-    (hsend : Send1 maskFn H Pc L sel v k0 hpC hpS chacha gc gs lc ls cc sc (items.map (·.2))) :
-    let c' := feedAll (quicMachine maskFn H Pc info) kl c items
-    c'.raised = none ∧ c'.st.out = c.st.out ++ (items.map (·.2)).flatMap (fun d => expectedOf .rtt1 d.x) ∧
+    (hcar : ∀ x ∈ items, Carries info c (wireOf H Pc L sel v k0) x.2.1 x.2.2)
+    (hsend : Send1 maskFn H Pc L sel v k0 hpC hpS chacha gc gs lc ls cc sc (items.map (·.2.2))) :
+    let c' := feedAll (quicMachine maskFn H Pc info) c items
+    c'.raised = none ∧ c'.st.out = c.st.out ++ (items.map (·.2.2)).flatMap (fun d => expectedOf .rtt1 d.x) ∧
     c'.opts = c.opts ∧ c'.server = c.server ∧ c'.client = c.client ∧ c'.serverMac = c.serverMac ∧
     c'.clientMac = c.clientMac ∧ c'.ipv6 = c.ipv6 ∧
     ∃ gc' gs' lc' ls', Est H Pc kl sel v k0 hpC hpS chacha c'.st gc' gs' lc' ls'
-      (finalCids cc sc (items.map (·.2))).1 (finalCids cc sc (items.map (·.2))).2 := by
+      (finalCids cc sc (items.map (·.2.2))).1 (finalCids cc sc (items.map (·.2.2))).2 := by
   induction items generalizing c gc gs lc ls cc sc with
   | nil => exact ⟨hr, by simp [feedAll], rfl, rfl, rfl, rfl, rfl, rfl, gc, gs, lc, ls, hest⟩
   | cons it rest ih =>
-    obtain ⟨p, d⟩ := it
+    obtain ⟨kl1, p, d⟩ := it
     obtain ⟨h1, h2, h3, h4, h5, h6, h7, h8⟩ := hsend
-    obtain ⟨w1, w2, w3⟩ := hcar (p, d) (List.mem_cons_self ..)
-    obtain ⟨s1, s2, s3⟩ := datagram_step maskFn H Pc kl L sel v k0 hpC hpS chacha hk c.st gc gs lc ls cc sc hest d
-      h1 h2 h3 h4 h5 h6 h7
-    have hfeed : (quicMachine maskFn H Pc info).feed c kl p d.x.dcid .unknown =
-        { c with st := (handleDatagram maskFn H (params H Pc kl) c.st (!d.x.srv) d.x.dcid .unknown d.x.ts
+    obtain ⟨w1, w2, w3⟩ := hcar (kl1, p, d) (List.mem_cons_self ..)
+    obtain ⟨s1, s2, s3⟩ := datagram_step maskFn H Pc kl1 L sel v k0 hpC hpS chacha hk c.st gc gs lc ls cc sc
+      (est_keylog_irrelevant H Pc kl kl1 _ _ _ _ _ _ _ _ _ _ _ _ _ hest) d h1 h2 h3 h4 h5 h6 h7
+    have s3 := est_keylog_irrelevant H Pc kl1 kl _ _ _ _ _ _ _ _ _ _ _ _ _ s3
+    have hfeed : (quicMachine maskFn H Pc info).feed c kl1 p d.x.dcid .unknown =
+        { c with st := (handleDatagram maskFn H (params H Pc kl1) c.st (!d.x.srv) d.x.dcid .unknown d.x.ts
                           (wireOf H Pc L sel v k0 d)).1, raised := none } := by
       simp only [quicMachine, hr, sver]
       rw [w1, w2, w3]
@@ -446,7 +461,7 @@ theorem feedAll_exact (kl : List Keylog.Key) (L : SealLaws Pc) (sel : SuiteSel) 
     simp only [feedAll, List.map_cons, List.flatMap_cons, finalCids]
     rw [hfeed]
     obtain ⟨i1, i2, i3, i4, i5, i6, i7, i8, i9⟩ := ih
-      { c with st := (handleDatagram maskFn H (params H Pc kl) c.st (!d.x.srv) d.x.dcid .unknown d.x.ts
+      { c with st := (handleDatagram maskFn H (params H Pc kl1) c.st (!d.x.srv) d.x.dcid .unknown d.x.ts
                           (wireOf H Pc L sel v k0 d)).1, raised := none } _ _ _ _ _ _ rfl s3
       (fun x hx => by
         obtain ⟨a, b, cdir⟩ := hcar x (List.mem_cons_of_mem _ hx)
@@ -454,7 +469,7 @@ theorem feedAll_exact (kl : List Keylog.Key) (L : SealLaws Pc) (sel : SuiteSel) 
     refine ⟨i1, ?_, i3, i4, i5, i6, i7, i8, i9⟩
     rw [i2]
     show (handleDatagram _ _ _ _ _ _ _ _ _).1.out ++ _ = _
-    rw [show (handleDatagram maskFn H (params H Pc kl) c.st (!d.x.srv) d.x.dcid .unknown d.x.ts
+    rw [show (handleDatagram maskFn H (params H Pc kl1) c.st (!d.x.srv) d.x.dcid .unknown d.x.ts
                   (wireOf H Pc L sel v k0 d)).1.out = c.st.out ++ expectedOf .rtt1 d.x from s2, List.append_assoc]
 
 end History
@@ -601,21 +616,21 @@ theorem out_tail (c : QConn) (ds : List Dg1) :
 
 theorem quic_one_rtt_connection_exact (kl : List Keylog.Key) (L : SealLaws Pc) (sel : SuiteSel) (v : Version)
     (k0 : AppKeys) (hpC hpS : Bytes) (chacha : Bool) (hk : KeysWf (params H Pc kl) sel v k0)
-    (items : List (MainLoop.Pkt × Dg1)) (c : QConn) (gc gs lc ls : Nat) (cc sc : List Bytes)
+    (items : List (List Keylog.Key × MainLoop.Pkt × Dg1)) (c : QConn) (gc gs lc ls : Nat) (cc sc : List Bytes)
     (hr : c.raised = none)
     (hest : Est H Pc kl sel v k0 hpC hpS chacha c.st gc gs lc ls cc sc)
     (hprev : ∀ o ∈ c.st.out, UdpOut.exported false (frameOf o) = none)
-    (hcar : ∀ x ∈ items, Carries info c (wireOf H Pc L sel v k0) x.1 x.2)
-    (hsend : Send1 maskFn H Pc L sel v k0 hpC hpS chacha gc gs lc ls cc sc (items.map (·.2)))
-    (htimes : ((items.map (·.2)).map fun d => (d.x.ts, d.x.srv)).Pairwise (· ≠ ·)) :
+    (hcar : ∀ x ∈ items, Carries info c (wireOf H Pc L sel v k0) x.2.1 x.2.2)
+    (hsend : Send1 maskFn H Pc L sel v k0 hpC hpS chacha gc gs lc ls cc sc (items.map (·.2.2)))
+    (htimes : ((items.map (·.2.2)).map fun d => (d.x.ts, d.x.srv)).Pairwise (· ≠ ·)) :
     let QM := quicMachine maskFn H Pc info
-    (feedAll QM kl c items).raised = none ∧
-    QM.out false (feedAll QM kl c items) = expectedOut c (items.map (·.2)) := by
+    (feedAll QM c items).raised = none ∧
+    QM.out false (feedAll QM c items) = expectedOut c (items.map (·.2.2)) := by
   intro QM
   obtain ⟨e1, e2, e3, e4, e5, e6, e7, e8, _⟩ := feedAll_exact maskFn H Pc info kl L sel v k0 hpC hpS chacha hk items c
     gc gs lc ls cc sc hr hest hcar hsend
   refine ⟨e1, ?_⟩
-  show connOut false (feedAll QM kl c items) = _
+  show connOut false (feedAll QM c items) = _
   rw [connOut_eq, addressed_congr c _ e3 e4 e5 e6 e7 e8, e2, List.map_append,
     build_skip_prefix _ _ (by
       intro f hf
@@ -629,7 +644,7 @@ theorem quic_one_rtt_connection_exact (kl : List Keylog.Key) (L : SealLaws Pc) (
     | cons d ds ih =>
       simp only [List.flatMap_cons, List.map_append, List.map_cons, framesOf] at ih ⊢
       rw [ih, inDg_frames]
-  have hdist : DistinctKeys ((items.map (·.2)).map fun d => inDg d.x) := by
+  have hdist : DistinctKeys ((items.map (·.2.2)).map fun d => inDg d.x) := by
     unfold DistinctKeys
     rw [List.map_map]
     exact htimes
@@ -754,7 +769,10 @@ def pktOf (i : Nat) (d : Dg1) : MainLoop.Pkt :=
   ⟨.udp, if d.x.srv then c0.server else c0.client, if d.x.srv then c0.client else c0.server,
     wireOf H Pc L sel .v1 k0 d, true, i⟩
 
-def items : List (MainLoop.Pkt × Dg1) := [(pktOf 0 d0, d0), (pktOf 1 d1, d1), (pktOf 2 d2, d2), (pktOf 3 d3, d3)]
+/-- the key log grows while the connection runs (a decryption-secrets block of another connection) -/
+def items : List (List Keylog.Key × MainLoop.Pkt × Dg1) :=
+  [([], pktOf 0 d0, d0), ([], pktOf 1 d1, d1), ([⟨Keylog.s_CTS0, [48, 49], [50, 51]⟩], pktOf 2 d2, d2),
+   ([⟨Keylog.s_CTS0, [48, 49], [50, 51]⟩], pktOf 3 d3, d3)]
 
 theorem keysWf : KeysWf (params H Pc []) sel .v1 k0 :=
   keysWf_rfc H Crypto.toyPrims_lawful Pc [] [0x13, 0x01] sel rfl .v1 (by decide) sa ca rfl rfl
@@ -778,7 +796,7 @@ theorem send1 : Send1 maskFn H Pc L sel .v1 k0 hpC hpS false 0 0 0 0 [[0xc1]] [[
     `\x01\x02\x03`, times 100, 101, 103, the last one from the server -/
 example :
     let QM := quicMachine maskFn H Pc info
-    QM.out false (feedAll QM [] c0 items) = expectedOut c0 ds ∧
+    QM.out false (feedAll QM c0 items) = expectedOut c0 ds ∧
     (expectedOut c0 ds).map (fun p => (p.ts, p.src.port, p.payload)) =
       [(100, 50000, [0x68, 0x69]), (101, 50000, [1, 2, 3]), (103, 8080, [1, 2, 3])] := by
   refine ⟨(quic_one_rtt_connection_exact maskFn H Pc info [] L sel .v1 k0 hpC hpS false keysWf items c0 0 0 0 0
@@ -911,20 +929,20 @@ theorem quic_connection_exact_partial (maskFn : Dissect.MaskFn) (info : Nat → 
     (kl : List Keylog.Key) (L : SealLaws Pc) (cs : Bytes) (sel : SuiteSel) (hsel : selectSuite cs = some sel)
     (ho : (hashOf H sel.hash).outLen < 65536) (sa ca : Bytes)
     (hs : sa.length = (hashOf H sel.hash).outLen) (hc : ca.length = (hashOf H sel.hash).outLen)
-    (items : List (MainLoop.Pkt × Dg1)) (c : QConn) (lc ls : Nat) (cc sc : List Bytes) (hr : c.raised = none)
+    (items : List (List Keylog.Key × MainLoop.Pkt × Dg1)) (c : QConn) (lc ls : Nat) (cc sc : List Bytes) (hr : c.raised = none)
     (hest : Est H Pc kl sel .v1 (rfcGen (hashOf H sel.hash) sel.keyLen sa ca 0)
       (quicHp (hashOf H sel.hash) ca sel.keyLen) (quicHp (hashOf H sel.hash) sa sel.keyLen) (cs == [0x13, 0x03])
       c.st 0 0 lc ls cc sc)
     (hprev : ∀ o ∈ c.st.out, UdpOut.exported false (frameOf o) = none)
     (hcar : ∀ x ∈ items, Carries info c
-      (wireOf H Pc L sel .v1 (rfcGen (hashOf H sel.hash) sel.keyLen sa ca 0)) x.1 x.2)
+      (wireOf H Pc L sel .v1 (rfcGen (hashOf H sel.hash) sel.keyLen sa ca 0)) x.2.1 x.2.2)
     (hsend : Send1 maskFn H Pc L sel .v1 (rfcGen (hashOf H sel.hash) sel.keyLen sa ca 0)
       (quicHp (hashOf H sel.hash) ca sel.keyLen) (quicHp (hashOf H sel.hash) sa sel.keyLen) (cs == [0x13, 0x03])
-      0 0 lc ls cc sc (items.map (·.2)))
-    (htimes : ((items.map (·.2)).map fun d => (d.x.ts, d.x.srv)).Pairwise (· ≠ ·)) :
+      0 0 lc ls cc sc (items.map (·.2.2)))
+    (htimes : ((items.map (·.2.2)).map fun d => (d.x.ts, d.x.srv)).Pairwise (· ≠ ·)) :
     let QM := quicMachine maskFn H Pc info
-    (feedAll QM kl c items).raised = none ∧
-    QM.out false (feedAll QM kl c items) = expectedOut c (items.map (·.2)) :=
+    (feedAll QM c items).raised = none ∧
+    QM.out false (feedAll QM c items) = expectedOut c (items.map (·.2.2)) :=
   quic_one_rtt_connection_exact maskFn H Pc info kl L sel .v1 _ _ _ _
     (keysWf_rfc H hl Pc kl cs sel hsel .v1 ho sa ca hs hc) items c 0 0 lc ls cc sc hr hest hprev hcar hsend htimes
 
